@@ -34,6 +34,7 @@ impl Matrix<f64> {
     /// Return the matrix p-norm (p=2 is Frobenius, p=inf is max norm)
     #[inline]
     pub fn norm_p(&self, p: f64 ) -> f64 {
+        if p.is_infinite() { return self.norm_max(); } // the limit p -> inf ( the formula below gives 1 for every matrix )
         let mut sum: f64 = 0.0;
         for i in 0..self.rows {
             for j in 0..self.cols {
